@@ -319,3 +319,23 @@ def bool_branches(fn, fa, pred):
             tt, ff = ff, tt
         out.append((bi, tt, ff))
     return out
+
+
+def is_awaited_result_of(e, stable, site=None):
+    """e is the value produced by `.await`ing the future returned by a call to `stable` (optionally at block `site`)."""
+    x = e
+    for _ in range(12):
+        if not isinstance(x, tuple) or not x:
+            return False
+        t = x[0]
+        if t == "call" and x[4] == stable:
+            return site is None or x[3] == (site,)
+        if t in ("field", "as", "old"):
+            x = x[1]
+        elif t == "call" and (x[1].endswith("::{closure#0}") or "new_unchecked" in x[1] or "into_future" in x[1] or "IntoFuture" in x[1]):
+            if not x[2]:
+                return False
+            x = x[2][0]
+        else:
+            return False
+    return False
